@@ -2,7 +2,7 @@
    Proofs/DataSlot.v instantiated with the obligations of Proofs/DataInst.v. *)
 From Coq Require Import ZArith List String Ascii Bool Lia.
 From Hexital Require Import Base.Prelude Base.Num Model.Manager Model.Candle Model.Readings Model.Analysis
-  Model.Engine Proofs.ListProofs Proofs.EngineProofs Proofs.CausalProofs.
+  Model.Engine Proofs.ListProofs Proofs.EngineProofs Proofs.CausalProofs Proofs.CollapseProofs Proofs.ComposeProofs.
 From Hexital Require Import Proofs.CausalMore.
 From Hexital Require Import Proofs.DataSlot Proofs.DataInst.
 Import ListNotations.
@@ -178,6 +178,46 @@ Proof.
   split.
   - eapply append_stepsD with (D := D) (G := G NO I) (M := dataM NO I); eassumption.
   - eapply calculate_is_loop_steps; eassumption.
+Qed.
+
+(* C01 on a collapsing timeframe: the indicator's candles are the collapse of a raw stream.  After
+   the stream so far (xs) its store is Dst - the canonical decoration of resample tf xs; appending
+   ys re-collapses Dst ++ ys (calculated buckets followed by raw candles, what CandleManager.append
+   does) and calculates: the result is the batch result over the resampled whole stream (a bucket
+   that takes in a candle is rebuilt by merge, which resets readings and helper entries) *)
+Theorem data_append_on_timeframe (tf : Z) (xs ys : list cd) (Dst : store) :
+  0 < tf -> sorted (payload NO) (xs ++ ys) -> Forall (fresh_data I) (xs ++ ys) ->
+  calculate NO I (resample (payload NO) (Candle.merge NO) tf xs) = Ok Dst ->
+  exists Mst, collapse (payload NO) (Candle.merge NO) tf (Dst ++ ys) = Ok Mst /\
+              calculate NO I Mst = calculate NO I (resample (payload NO) (Candle.merge NO) tf (xs ++ ys)).
+Proof.
+  destruct (obligations I key Hnode Hkind) as (D & Hshape & Hrec). intros Htf Hsrt Hf HD.
+  assert (Hgm : forall ts a b, G NO I {| t := ts; p := Candle.merge NO a b |}) by (intros; apply G_merged).
+  assert (Hgt : forall ts (c : cd), G NO I c -> G NO I {| t := ts; p := p c |}) by (intros ts c H; exact H).
+  assert (FR : forall zs, Forall (fresh_data I) zs -> Forall (fresh_data I) (resample (payload NO) (Candle.merge NO) tf zs)).
+  { intros zs Hz. unfold resample. eapply resample_acc_freshD with (G := G NO I) (M := dataM NO I); try eassumption; constructor. }
+  pose proof Hf as Hf2. apply Forall_app in Hf2. destruct Hf2 as [Hfx Hfy].
+  rewrite (batch_is_canonD NO I (dataM NO I) Hs (G NO I) D Hshape _ (FR xs Hfx)) in HD.
+  rewrite (batch_is_canonD NO I (dataM NO I) Hs (G NO I) D Hshape _ (FR (xs ++ ys) Hf)).
+  eapply append_on_timeframeD with (D := D) (G := G NO I) (M := dataM NO I); eassumption.
+Qed.
+
+(* C02 on a collapsing timeframe: every bucket but the last (still open) one keeps its readings *)
+Theorem data_closed_buckets_final (tf : Z) (xs ys : list cd) (Dst D' : store) :
+  0 < tf -> Forall (fresh_data I) (xs ++ ys) ->
+  calculate NO I (resample (payload NO) (Candle.merge NO) tf xs) = Ok Dst ->
+  calculate NO I (resample (payload NO) (Candle.merge NO) tf (xs ++ ys)) = Ok D' ->
+  exists tl, D' = removelast Dst ++ tl.
+Proof.
+  destruct (obligations I key Hnode Hkind) as (D & Hshape & Hrec). intros Htf Hf HD HD'.
+  assert (Hgm : forall ts a b, G NO I {| t := ts; p := Candle.merge NO a b |}) by (intros; apply G_merged).
+  assert (Hgt : forall ts (c : cd), G NO I c -> G NO I {| t := ts; p := p c |}) by (intros ts c H; exact H).
+  assert (FR : forall zs, Forall (fresh_data I) zs -> Forall (fresh_data I) (resample (payload NO) (Candle.merge NO) tf zs)).
+  { intros zs Hz. unfold resample. eapply resample_acc_freshD with (G := G NO I) (M := dataM NO I); try eassumption; constructor. }
+  pose proof Hf as Hf2. apply Forall_app in Hf2. destruct Hf2 as [Hfx Hfy].
+  rewrite (batch_is_canonD NO I (dataM NO I) Hs (G NO I) D Hshape _ (FR xs Hfx)) in HD.
+  rewrite (batch_is_canonD NO I (dataM NO I) Hs (G NO I) D Hshape _ (FR (xs ++ ys) Hf)) in HD'.
+  eapply closed_buckets_finalD with (D := D) (M := dataM NO I) (tf := tf) (xs := xs) (ys := ys); eassumption.
 Qed.
 End WithNode.
 
